@@ -1,7 +1,7 @@
 #!/bin/sh
 # usage: tools/try_seed.sh <patch.diff> <ID> [extra check args]  -- run a check against a scratch worktree with the patch applied (never /repo)
 set -e
-WT=/tmp/wt/mine
+WT=${WT:-/tmp/wt/mine}
 [ -d $WT ] || git -C /repo worktree add -q --detach $WT HEAD
 git -C $WT checkout -q -- . ; git -C $WT checkout -q --detach $(git -C /repo rev-parse HEAD); git -C $WT apply "$1"
 shift
